@@ -275,8 +275,8 @@ type envTypeGen struct {
 	leaves []envLeaf
 	used   map[string]bool // documented names used so far (distinct flattened names are a precondition)
 	alias  bool
-	embed  bool // embedded (anonymous) struct fields: their name adds no word unless tagged
-	colls  bool // slices / arrays / maps of structs (sub-transformers)
+	embed  bool            // embedded (anonymous) struct fields: their name adds no word unless tagged
+	colls  bool            // slices / arrays / maps of structs (sub-transformers)
 	np     []string        // names of the enclosing non-embedded fields
 	flat   map[string]bool // flattened Go names used so far (embedded structs share their parent's name space)
 }
